@@ -10,6 +10,9 @@ CONSTANTS
   FullDepth = 1
   SeedThin = 1
   SeedThinFrom = 9
+  SeedAscending = FALSE
+  SeedInputs = TRUE
+  EmitConfluence = FALSE
   SampleMod = 48
   SampleRes = 0
 INIT Init
